@@ -140,8 +140,15 @@ class SphinxRenderer(DocutilsRenderer):
 
         potential_path: None | Path = None
         if self.sphinx_env.srcdir:  # not set in some test situations
-            _, path_str = self.sphinx_env.relfn2path(path_dest, self.sphinx_env.docname)
-            potential_path = Path(path_str)
+            try:
+                _, path_str = self.sphinx_env.relfn2path(
+                    path_dest, self.sphinx_env.docname
+                )
+            except ValueError:
+                # e.g. the destination contains a null byte
+                pass
+            else:
+                potential_path = Path(path_str)
 
         is_file = False
         if potential_path:
